@@ -249,4 +249,6 @@ def plans_for(calls, crash=True):
             plans.append({"k": k, "mode": "crash", "err": ""})
             if kind == "write":
                 plans.append({"k": k, "mode": "torn", "err": ""})
+        if kind == "write":
+            plans.append({"k": k, "mode": "short", "err": "ENOSPC"})
     return plans
